@@ -16,8 +16,14 @@ import (
 func vh_C22_protocol_converges() {
 	nkeys := vParam("c22b_keys", 4)
 	ordered := vChoice("ordered", vParam("c22b_ordered", 1)) == 1
+	// channel mode: recoverable (stream) or ephemeral (streamless: the position
+	// stays at offset 0, only the epoch identifies the state)
+	mapMode := MapModeRecoverable
+	if vChoice("ephemeral", vParam("c22b_modes", 2)) == 1 {
+		mapMode = MapModeEphemeral
+	}
 	n := vNewNode(Config{Map: MapConfig{GetMapChannelOptions: func(string) MapChannelOptions {
-		return MapChannelOptions{Mode: MapModeRecoverable, KeyTTL: 3600_000_000_000, MinPageSize: 1, ordered: ordered}
+		return MapChannelOptions{Mode: mapMode, KeyTTL: 3600_000_000_000, MinPageSize: 1, ordered: ordered}
 	}}})
 	n.OnConnect(func(c *Client) {
 		c.OnSubscribe(func(e SubscribeEvent, cb SubscribeCallback) {
@@ -51,9 +57,20 @@ func vh_C22_protocol_converges() {
 	}
 	// one modification of the channel between two client requests
 	serial := byte(100)
+	keyChanged := false // a key was published or removed between two client requests
 	modify := func() {
-		op := vChoice("modify", 4)
+		op := vChoice("modify", 4+vParam("c22b_clear", 1))
+		if op == 4 {
+			// the whole channel is cleared (new epoch)
+			_ = b.Clear(ctx, ch, MapClearOptions{})
+			vSettle()
+			vCover(true, "cleared-between-requests")
+			return
+		}
 		k := keyName(vChoice("modkey", nkeys+1)) // last index = a new key
+		if op != 0 {
+			keyChanged = true
+		}
 		switch op {
 		case 1:
 			_, _ = b.Remove(ctx, ch, k, MapRemoveOptions{})
@@ -130,13 +147,22 @@ func vh_C22_protocol_converges() {
 	// live pushes that arrived after the transition
 	for _, f := range tr.frames {
 		r, _ := vDecoded(f).(*protocol.Reply)
-		if r != nil && r.Push != nil && r.Push.Channel == ch && r.Push.Pub != nil && r.Push.Pub.Offset > savedOffset {
+		if r != nil && r.Push != nil && r.Push.Channel == ch && r.Push.Pub != nil && (mapMode == MapModeEphemeral || r.Push.Pub.Offset > savedOffset) {
+			// streamless channels carry no offsets: every push is applied in order
 			apply([]*protocol.Publication{r.Push.Pub}, true)
-			savedOffset = r.Push.Pub.Offset
+			if r.Push.Pub.Offset > savedOffset {
+				savedOffset = r.Push.Pub.Offset
+			}
 		}
 	}
 	st, err := b.ReadState(ctx, ch, MapReadStateOptions{Limit: -1})
 	vAssert(err == nil, "final read")
+	// Known finding: a streamless (ephemeral) channel has no stream to catch up
+	// from and the subscription joins the hub only at the live transition, so a
+	// key published or removed between two state-page requests is neither in a
+	// later page (when it sorts before the cursor) nor delivered afterwards,
+	// and the client is not told.
+	vKnown("C22-streamless-change-between-state-pages", mapMode == MapModeEphemeral && keyChanged)
 	vAssert(st.Position.Offset == savedOffset, "client-position-is-the-stream-top")
 	vAssert(len(st.Publications) == len(local), "same-number-of-keys")
 	for _, p := range st.Publications {
